@@ -255,6 +255,22 @@ theorem least_model (hdn : DnegOld P) (prg : Prog) (hok : Ok prg) {T : Interp} (
     · exact hconst _ _ e T _ T (key T (fun _ x => x) hT)
   | _ => simp only [stmSat]
 
+/-- every atom of `X` is derived at `(X,T)` -/
+def Supp (prg : Prog) (X T : Interp) : Prop := ∀ a, X a → Derives P prg a X T
+
+theorem supp_stable (hdn : DnegOld P) (prg : Prog) (hok : Ok prg) {T : Interp} (hS : Stable (stdParams P) prg T) :
+    Supp P prg T T := fun a ha => supported P hdn prg hok hS a ha
+
+/-- the least model below `T` is supported: an atom without a derivation could be deleted from it -/
+theorem supp_least (hdn : DnegOld P) (prg : Prog) (hok : Ok prg) {T : Interp} (hT : Models (stdParams P) prg T T) :
+    Supp P prg (least P prg T) T := by
+  intro a ha
+  apply Classical.byContradiction
+  intro hno
+  have hM1 := remove_atom_model P hdn prg hok (least_model P hdn prg hok hT) a hno
+  have := ha (fun x => least P prg T x ∧ x ≠ a) (fun x h => least_sub P prg hT x h.1) hM1
+  exact this.2 rfl
+
 /-! ## the rewrite -/
 
 /-- the rewritten rule and what is deleted from it -/
@@ -281,12 +297,13 @@ end Rewrite
 
 /-- the semantic side condition: `p(s̄)` stays in the body; the deleted literal has no variable of its own (so the rule
 keeps its global variables); and whenever the source derives the ground atom `p(s̄e)` at `(H,T)`, the ground atom `q(t̄e)`
-is in `H` -/
+is in `H` - stated for SUPPORTED interpretations `X` (every atom of `X` has a derivation at `(X,T)`): stable models and the
+least model below one are supported, and a chain of implications `p ⟸ r ⟸ q` can be followed through them -/
 structure Implied (R : Rewrite) : Prop where
   pmem : R.pLit ∈ R.body
   globals : ∀ v, v ∈ ruleGlobals (stdParams P) R.head (R.qLit :: R.body) ↔ v ∈ ruleGlobals (stdParams P) R.head R.body
-  imp : ∀ e vals, evalTerms P e R.pargs = some vals → ∀ H T, Derives P R.src ⟨R.pn, vals⟩ H T →
-    ∃ qvals, evalTerms P e R.qargs = some qvals ∧ H ⟨R.qn, qvals⟩
+  imp : ∀ e vals, evalTerms P e R.pargs = some vals → ∀ X T, Supp P R.src X T → X ⟨R.pn, vals⟩ →
+    ∃ qvals, evalTerms P e R.qargs = some qvals ∧ X ⟨R.qn, qvals⟩
 
 theorem sameG (R : Rewrite) (hG : ∀ v, v ∈ ruleGlobals (stdParams P) R.head (R.qLit :: R.body) ↔ v ∈ ruleGlobals (stdParams P) R.head R.body) :
     (fun v => v ∈ ruleGlobals (stdParams P) R.head (R.qLit :: R.body)) = (fun v => v ∈ ruleGlobals (stdParams P) R.head R.body) := by
@@ -362,7 +379,7 @@ theorem remove_implied (hdn : DnegOld P) (R : Rewrite) (hok : Ok R.src) (himp : 
     have hqT : ∀ e, bodySat P (fun _ => True) e T T R.body → blitSat P (fun _ => True) e T T R.qLit := by
       intro e hb
       obtain ⟨vals, hv, hT⟩ := pLit_sat P R e T T hp hb
-      obtain ⟨qvals, hqv, hq⟩ := himp e vals hv T T (supported P hdn R.src hok hS _ hT)
+      obtain ⟨qvals, hqv, hq⟩ := himp e vals hv T T (supp_stable P hdn R.src hok hS) hT
       exact qLit_sat P R e T T qvals hqv hq
     intro s hs
     simp only [Rewrite.res, List.mem_append, List.mem_cons] at hs
@@ -386,15 +403,8 @@ theorem remove_implied (hdn : DnegOld P) (R : Rewrite) (hok : Ok R.src) (himp : 
         blitSat P (fun _ => True) e (least P R.src T) T R.qLit := by
       intro e hb
       obtain ⟨vals, hv, hLp⟩ := pLit_sat P R e _ T hp hb
-      apply Classical.byContradiction
-      intro hnq
-      have hblock : ¬ Derives P R.src ⟨R.pn, vals⟩ (least P R.src T) T := by
-        intro hd
-        obtain ⟨qvals, hqv, hq⟩ := himp e vals hv _ T hd
-        exact hnq (qLit_sat P R e _ T qvals hqv hq)
-      have hM1 := remove_atom_model P hdn R.src hok hL ⟨R.pn, vals⟩ hblock
-      have := hLp (fun x => least P R.src T x ∧ x ≠ ⟨R.pn, vals⟩) (fun a h => hLT a h.1) hM1
-      exact this.2 rfl
+      obtain ⟨qvals, hqv, hq⟩ := himp e vals hv _ T (supp_least P hdn R.src hok hMT) hLp
+      exact qLit_sat P R e _ T qvals hqv hq
     intro s hs
     simp only [Rewrite.res, List.mem_append, List.mem_cons] at hs
     rcases hs with hs | rfl | hs
@@ -629,29 +639,35 @@ theorem imp_of_ruleImplies (prg : Prog) (pn : String) (pargs : List Term) (qn : 
         exact (hag v hglob).symm
       | clit _ => cases hm
 
+theorem impliedCheck_globals (R : Rewrite) (hqv : qVarsOk R = true) :
+    ∀ v, v ∈ ruleGlobals (stdParams P) R.head (R.qLit :: R.body) ↔ v ∈ ruleGlobals (stdParams P) R.head R.body := by
+  intro v
+  have hq : ∀ v, v ∈ R.qargs.flatMap Term.vars → v ∈ stdHeadGlobals R.head ++ bodyGlobals R.body := by
+    intro v hv
+    have := (List.all_eq_true.mp hqv) v hv
+    simpa using this
+  show v ∈ stdHeadGlobals R.head ++ bodyGlobals (R.qLit :: R.body) ↔ v ∈ stdHeadGlobals R.head ++ bodyGlobals R.body
+  simp only [bodyGlobals, List.flatMap_cons, List.mem_append]
+  constructor
+  · rintro (h1 | h2 | h3)
+    · exact Or.inl h1
+    · have : v ∈ R.qargs.flatMap Term.vars := by
+        simpa [Rewrite.qLit, blitGlobals, litVars, litTerms, Atom.terms, Term.vars] using h2
+      have := hq v this
+      simpa [bodyGlobals, List.mem_append] using this
+    · exact Or.inr h3
+  · rintro (h1 | h3)
+    · exact Or.inl h1
+    · exact Or.inr (Or.inr h3)
+
+
 theorem impliedCheck_sound (R : Rewrite) (h : impliedCheck R = true) : Ok R.src ∧ Implied P R := by
   simp only [impliedCheck, Bool.and_eq_true, List.all_eq_true] at h
   obtain ⟨⟨⟨hok, hp⟩, hqv⟩, himp⟩ := h
   refine ⟨hok, blitMem_mem hp, ?_, ?_⟩
-  · intro v
-    have hq : ∀ v, v ∈ R.qargs.flatMap Term.vars → v ∈ stdHeadGlobals R.head ++ bodyGlobals R.body := by
-      intro v hv
-      have := (List.all_eq_true.mp hqv) v hv
-      simpa using this
-    show v ∈ stdHeadGlobals R.head ++ bodyGlobals (R.qLit :: R.body) ↔ v ∈ stdHeadGlobals R.head ++ bodyGlobals R.body
-    simp only [bodyGlobals, List.flatMap_cons, List.mem_append]
-    constructor
-    · rintro (h1 | h2 | h3)
-      · exact Or.inl h1
-      · have : v ∈ R.qargs.flatMap Term.vars := by
-          simpa [Rewrite.qLit, blitGlobals, litVars, litTerms, Atom.terms, Term.vars] using h2
-        have := hq v this
-        simpa [bodyGlobals, List.mem_append] using this
-      · exact Or.inr h3
-    · rintro (h1 | h3)
-      · exact Or.inl h1
-      · exact Or.inr (Or.inr h3)
-  · exact imp_of_ruleImplies P R.src R.pn R.pargs R.qn R.qargs himp
+  · exact impliedCheck_globals P R hqv
+  · intro e vals hv X T hsupp hX
+    exact imp_of_ruleImplies P R.src R.pn R.pargs R.qn R.qargs himp e vals hv X T (hsupp _ hX)
 
 /-- the body before the deletion has the literals of `q :: body after` (in any order) -/
 def sameLits (a b : List BLit) : Bool := a.all (fun x => blitMem x b) && b.all (fun x => blitMem x a)
@@ -720,8 +736,8 @@ theorem obj_stable (R : ObjRewrite) (T : Interp) : Stable (stdParams P) R.src T 
 /-- **the cost tuples of the shortened objective are those of the source, in every stable model** -/
 theorem obj_costs (hdn : DnegOld P) (R : ObjRewrite) (hok : Ok R.src) (hbody : plainBody (R.qLit :: R.body) = true)
     (hp : R.pLit ∈ R.body)
-    (himp : ∀ e vals, evalTerms P e R.pargs = some vals → ∀ H T, Derives P R.src ⟨R.pn, vals⟩ H T →
-      ∃ qvals, evalTerms P e R.qargs = some qvals ∧ H ⟨R.qn, qvals⟩)
+    (himp : ∀ e vals, evalTerms P e R.pargs = some vals → ∀ X T, Supp P R.src X T → X ⟨R.pn, vals⟩ →
+      ∃ qvals, evalTerms P e R.qargs = some qvals ∧ X ⟨R.qn, qvals⟩)
     (T : Interp) (hS : Stable (stdParams P) R.src T) (tup : Sym × Sym × List Sym) :
     costTuples (stdParams P) T R.srcStm tup ↔ costTuples (stdParams P) T R.resStm tup := by
   obtain ⟨wv, pv, tv⟩ := tup
@@ -739,7 +755,7 @@ theorem obj_costs (hdn : DnegOld P) (R : ObjRewrite) (hok : Ok R.src) (hbody : p
     have hpl := hbt _ hp
     simp only [ObjRewrite.pLit, blitSat, litSat, atomSat, groundAtom, Option.map_eq_some_iff] at hpl
     obtain ⟨a, ⟨vals, hv, rfl⟩, hT⟩ := hpl
-    obtain ⟨qvals, hqv, hq⟩ := himp e vals hv T T (supported P hdn R.src hok hS _ hT)
+    obtain ⟨qvals, hqv, hq⟩ := himp e vals hv T T (supp_stable P hdn R.src hok hS) hT
     apply (bodySat_G P (R.qLit :: R.body) hbody (fun _ => True) _ e T T).mp
     intro l hl
     rcases List.mem_cons.mp hl with rfl | hl
@@ -765,6 +781,6 @@ theorem obj_of_check (hdn : DnegOld P) (R : ObjRewrite) (h : objImpliedCheck R =
   simp only [objImpliedCheck, Bool.and_eq_true, List.all_eq_true] at h
   obtain ⟨⟨⟨hok, hbody⟩, hp⟩, himp⟩ := h
   exact ⟨obj_stable P R T, fun hS tup => obj_costs P hdn R hok hbody (blitMem_mem hp)
-    (imp_of_ruleImplies P R.src R.pn R.pargs R.qn R.qargs himp) T hS tup⟩
+    (fun e vals hv X T' hsupp hX => imp_of_ruleImplies P R.src R.pn R.pargs R.qn R.qargs himp e vals hv X T' (hsupp _ hX)) T hS tup⟩
 
 end NgoVerif.Proofs.C08impl
